@@ -162,6 +162,20 @@ SdfRecord(name, m) ==
   \o [i \in DOMAIN m.atoms |-> SdfAtomLine(m.atoms[i])]
   \o [j \in DOMAIN m.bonds |-> SdfBondLine(m.bonds[j])]
   \o <<MEND>>
+(* ---- the writer as found at the pinned commit (deviations, used only by --explain) ---------- *)
+(* Molecule.to_sdf_string hands positions[:, 0] to the x, y and z fields; fmt/sdf.py to_atom_line *)
+(* puts a blank between the 10-wide fields; counts and bond atoms are printed with the blank-sign *)
+(* flag (4 wide from 100 on); bond order 0; an empty line takes the place of an empty bond block. *)
+I3AsBuilt(n) == IF n < 100 THEN I3(n) ELSE <<32>> \o UIntDigits(n)
+SdfAtomLineAsBuilt(a) == F104(a.c[1]) \o <<32>> \o F104(a.c[1]) \o <<32>> \o F104(a.c[1]) \o <<32>> \o PadR(SymTab[a.z], 3)
+                         \o <<32, 48>> \o ZeroFields(11)
+SdfCountsLineAsBuilt(na, nb) == I3AsBuilt(na) \o I3AsBuilt(nb) \o ZeroFields(1) \o Spaces(3) \o ZeroFields(7) \o <<32>> \o V2000TAG
+SdfBondLineAsBuilt(b) == I3AsBuilt(b[1]) \o I3AsBuilt(b[2]) \o ZeroFields(5)
+SdfRecordAsBuilt(name, m) ==
+  <<name, <<32, 32, 115, 112, 101, 99>>, <<>>, SdfCountsLineAsBuilt(Len(m.atoms), Len(m.bonds))>>
+  \o [i \in DOMAIN m.atoms |-> SdfAtomLineAsBuilt(m.atoms[i])]
+  \o (IF m.bonds = <<>> THEN << <<>> >> ELSE [j \in DOMAIN m.bonds |-> SdfBondLineAsBuilt(m.bonds[j])])
+  \o <<MEND>>
 (* one data item "> <ID>" / value / blank line, as SD files carry after the connection table *)
 SdfDataItem(k) == << <<62, 32, 60, 73, 68, 62>>, UIntDigits(k), <<>> >>
 (* A file: every record [+ data item] + "$$$$" line, final newline (= a last empty line).     *)
